@@ -2,6 +2,7 @@ mod codec;
 mod container;
 mod deflate;
 mod gen;
+mod iox;
 mod util;
 
 use util::Args;
@@ -30,6 +31,11 @@ fn main() {
         "container-replay" => container::replay(&args),
         "container-record" => container::record(&args),
         "container-replay-hex" => container::replay_hex(&args),
+        "io-record" => iox::io_record(&args),
+        "io-replay" => iox::io_replay(&args),
+        "zstd-record" => iox::zstd_record(&args),
+        "abi-record" => iox::abi_record(&args),
+        "conc-record" => iox::conc_record(&args),
         other => {
             eprintln!("unknown subcommand {}", other);
             2
